@@ -32,7 +32,7 @@ def _results(inp):
     akeys = ["error_array", "timestamps", "distances"]
     for i, sizes in enumerate(inp["sizes"]):
         r = Result()
-        r.add_info({"title": "t%d" % i, "est_name": "est_%d" % i})
+        r.add_info({"title": "t%d" % i, "est_name": ("run_%d/traj.txt" % i) if inp.get("dup_labels") else "est_%d" % i})
         sk = list(skeys)
         ak = list(akeys)
         if inp.get("permute") and i % 2:
@@ -42,6 +42,8 @@ def _results(inp):
         if inp.get("drop_arr") == i:
             ak = ak[:-1]
         r.add_stats({k: float(rng.normal()) for k in sk})
+        if inp.get("extra_stat") == i:
+            r.add_stats({"p95": float(rng.normal())})
         for k in ak:
             r.add_np_array(k, rng.normal(size=sizes[akeys.index(k)]))
         out.append(r)
@@ -116,6 +118,14 @@ def chk_table(inp):
         return f
     if len(df.columns) != len(rs):
         return ["one_column_per_result_file %d != %d" % (len(df.columns), len(rs))]
+    if inp.get("dup_labels") and not inp["use_filenames"]:
+        # equal labels: every file still has its column, holding that file's statistics (evo_res itself refuses such input)
+        cols = [df.iloc[:, k] for k in range(len(rs))]
+        for k, r in enumerate(rs):
+            st = cols[k].loc["stats"].dropna()
+            if set(st.index) != set(r.stats) or any(float(st[q]) != v for q, v in r.stats.items()):
+                return ["every_input_file_has_its_own_column_also_with_equal_labels[file %d]" % k]
+        return f
     for i, (r, p) in enumerate(zip(rs, files)):
         label = p if inp["use_filenames"] else r.info["est_name"]
         if label not in df.columns:
@@ -149,6 +159,10 @@ def _cases(tier, seed):
     for it in range(12 if tier == "quick" else 300):
         N = 1 + it % 5
         yield ("table", {"seed": 500 + it, "sizes": [[4, 4, 4]] * N, "use_filenames": bool(it % 2), "merge": it % 3 == 0})
+    for it in range(12 if tier == "quick" else 200):
+        N = 2 + it % 3
+        yield ("table", {"seed": 800 + it, "sizes": [[4, 4, 4]] * N, "use_filenames": bool(it % 2), "merge": False,
+                         "dup_labels": it % 2 == 0, "extra_stat": (1 + it % (N - 1)) if it % 3 else None})
 
 
 def bounded(tier, seed):
